@@ -638,6 +638,62 @@ func (h *c05Heartbeat) start() {
 			prev = now
 		}
 	}()
+	// Second probe: a goroutine woken by a timer (or a channel) is run next on its P, whereas a
+	// goroutine woken by socket readiness - every relay and harness reader here - queues behind all
+	// runnable goroutines. Under heavy load the first probe therefore underestimates what the judged
+	// goroutines suffer: a loopback ping measures the delay of exactly their wake-up path.
+	ln, err := c05ListenLoopback()
+	if err != nil {
+		return
+	}
+	a, err := net.DialTCP("tcp", nil, ln.Addr().(*net.TCPAddr))
+	if err != nil {
+		_ = ln.Close()
+		return
+	}
+	b, err := ln.AcceptTCP()
+	_ = ln.Close()
+	if err != nil {
+		_ = a.Close()
+		return
+	}
+	go func() {
+		defer a.Close()
+		var stamp [8]byte
+		for {
+			select {
+			case <-h.stop:
+				return
+			default:
+			}
+			time.Sleep(5 * time.Millisecond)
+			binary.BigEndian.PutUint64(stamp[:], uint64(time.Now().UnixNano()))
+			if _, err := a.Write(stamp[:]); err != nil {
+				return
+			}
+		}
+	}()
+	go func() {
+		defer b.Close()
+		var stamp [8]byte
+		for {
+			if _, err := io.ReadFull(b, stamp[:]); err != nil {
+				return
+			}
+			now := time.Now()
+			if lag := now.Sub(time.Unix(0, int64(binary.BigEndian.Uint64(stamp[:])))); lag > 20*time.Millisecond {
+				h.mu.Lock()
+				h.lags = append(h.lags, struct {
+					at  time.Time
+					lag time.Duration
+				}{now, lag})
+				if lag > h.max {
+					h.max = lag
+				}
+				h.mu.Unlock()
+			}
+		}
+	}()
 }
 
 // maxLag is the largest oversleep whose interval overlaps [from, to].
@@ -1696,7 +1752,8 @@ func TestVerifC05(t *testing.T) {
 	m.SetFloor(60)
 	m.Assume("handleConn wiring between DNS probe, prefetch, sniffer and relay is re-implemented from control/tcp.go:138-218,266 (handleConn itself needs a loaded datapath); dst address/port are passed as values, sockets live on 127.0.0.1",
 		"copy path is attributed by the dae function that invoked the traffic recorder (runtime.Callers) plus relayGatherWriteTestHook",
-		"timing verdicts use bands of >= 2 s around dae's own windows; absence-of-EOF is judged only when opposite-direction traffic sent later was demonstrably relayed")
+		"timing verdicts use bands of >= 2 s around dae's own windows; absence-of-EOF is judged only when opposite-direction traffic sent later was demonstrably relayed",
+		"lock-step class: a message that does not get through is a violation only when dae's own I/O at the monitor's conns (or the kernel's socket queue counters) shows that dae took the bytes from the source and did not hand them to the destination while the sender, by protocol, sends nothing more; the 20 s watchdog only triggers the inspection; the inspection is checked in every run against a relay of the monitor's own that withholds a lone byte")
 	if s, l := c05Hellos(); len(s) == 0 || len(l) == 0 {
 		m.Inconclusive("could not capture TLS ClientHello samples")
 		m.Done(t)
@@ -1768,6 +1825,12 @@ func TestVerifC05(t *testing.T) {
 			c05AbortedRelay(m, ar, i)
 		}
 	}()
+	// lock-step exchanges (c05_lockstep_verif_test.go) run next to the bulk cases: same process-wide pools
+	lockStepDone := make(chan struct{})
+	go func() {
+		defer close(lockStepDone)
+		c05LockStepBatch(m, seed)
+	}()
 	for _, i := range order {
 		cs := cases[i]
 		sem <- struct{}{}
@@ -1796,6 +1859,7 @@ func TestVerifC05(t *testing.T) {
 		}()
 	}
 	wg.Wait()
+	<-lockStepDone
 	close(abortStop)
 	<-abortDone
 	// connections relayed after the last torn-down relay: its leftovers, if any, are still pooled
@@ -1848,6 +1912,11 @@ func TestVerifC05(t *testing.T) {
 		"eof_propagated_l2r", "eof_propagated_r2l", "grace_flow_delivered", "alive_after_window", "late_unit_delivered", "eager_close", "long_grace_4s", "small_window_backpressure", "old_connection_half_close",
 		"outcome_plain", "outcome_bufio", "outcome_prefixed", "outcome_sniffer-ok", "outcome_raw-noready",
 		"torn_down_relays_with_bytes_in_flight", "torn_down_relay_path_splice", "cases_after_last_torn_down_relay")
+	m.Require("lockstep_conns_completed", "lockstep_boundary_size_msgs", "lockstep_seg_last-alone", "lockstep_seg_bytes",
+		"lockstep_lone_byte_after_burst_l2r_fast", "lockstep_lone_byte_after_burst_l2r_buffered", "lockstep_lone_byte_after_burst_l2r_gather-cont",
+		"lockstep_lone_byte_after_burst_r2l_fast", "lockstep_lone_byte_after_burst_r2l_buffered",
+		"lockstep_tracked_both_ends", "lockstep_tracked_upstream_only", "lockstep_plain_tcp_both_ends", "lockstep_server_first",
+		"lockstep_proof_control_ok_monitor-conn_monitor-conn", "lockstep_proof_control_ok_kernel-queues_kernel-queues")
 	_ = errors.Is
 	m.Done(t)
 }
